@@ -69,6 +69,7 @@ class State(object):
         self.heap = {}
         self.n_alloc = 0
         self.private = set()        # concrete ids allocated on this path that have not escaped
+        self.frozen = set()         # concrete ids of immutable objects (tuples, records): never havocked
         self.objreg = {}            # concrete id -> engine object (Closure, Bound, TupleV, Partial...)
         self.objcls = {}            # concrete id -> class name (fresh objects)
         self.trace = []
@@ -91,6 +92,7 @@ class State(object):
         s.heap = dict(self.heap)
         s.n_alloc = self.n_alloc
         s.private = set(self.private)
+        s.frozen = set(self.frozen)
         s.objreg = dict(self.objreg)
         s.objcls = dict(self.objcls)
         s.trace = list(self.trace)
@@ -148,6 +150,8 @@ class State(object):
         self.n_alloc += 1
         oid = FRESH_BASE + self.n_alloc
         self.objcls[oid] = cls_name
+        if cls_name in ("tuple", "method", "partial", "function"):
+            self.frozen.add(oid)
         if private:
             self.private.add(oid)
         return oid
